@@ -51,6 +51,11 @@ def run(tier, seed, res, lean):
     gb = [p for i in range(12 if tier == 'quick' else 80) for p in suite_ghash.run_byvalue_groups(seed * 467 + i) if p['kind'] == 'c04']
     for b in gb[:3]:
         res.violations.append(Violation('c04-grouped-by-value', b['msg'][:400], {'suite': 'S-GHASH/by-value groups', **b}))
+    # variants differing in one option of a dataset-wide layer, sharing one disk cache
+    for i in range(3 if tier == 'quick' else 20):
+        _, ov = suite_cache.run_option_variants_shared_disk(seed * 11 + i)
+        for b in ov[:2]:
+            res.violations.append(Violation('c04-option-variants', b['msg'][:400], {'suite': 'S-CACHE/option-variants', **b}))
     # one function with default parameters bound under different keyword names, the fields behind ONE disk cache
     from .. import suite_hash as _sh
     for p in [p for i in range(3 if tier == 'quick' else 20) for p in _sh.run_default_keywords(seed * 7 + i) if p['kind'] in ('cache', 'error')][:2]:
